@@ -63,6 +63,20 @@ def abc_three_term(v):
         check('first-order', approx(JAC.at(1, a, b, x), A * x + B, 1e-9))
 
 
+def _seed_exact_zeros(v):
+    """concrete cover only: in about half of the runs put exact zeros into the coefficient vector (leading entry, trailing entry or
+    an interior one, chosen from the data) -- sparse vectors are ordinary inputs, and random draws never contain an exact zero"""
+    n = len(v)
+    k = int(abs(float(v[-1])) * 1e6) % 6
+    if n >= 2 and k == 0:
+        v[0] = 0.0
+    elif n >= 2 and k == 1:
+        v[-1] = 0.0
+    elif n >= 3 and k == 2:
+        v[n // 2] = 0.0
+        v[0] = 0.0
+
+
 def _coords(kind):
     """a coordinate input of the given rank: (the argument, the value at one arbitrary element, its dims, that element's index)"""
     if kind == 'scalar':
@@ -81,11 +95,11 @@ class ClenshawInv(Invariant):
         S(M+1) = alphas[0]                                                          (n = -1, the loop's exit)
     which is Clenshaw's identity (c_k: third coefficient of the three-term recurrence, as contracted in C07 recurrence_abc/dlmf).
     a, b, c, _ are re-assigned before use in the body (dead at the loop head)."""
-    def __init__(self, S, P, Cc, tag, col=None):
-        self.S, self.P, self.Cc, self.tag, self.col = S, P, Cc, tag, col or ((), ())      # col = (coordinate dims, element index)
+    def __init__(self, S, P, Cc, tag, col=None, M=None):
+        self.S, self.P, self.Cc, self.tag, self.col, self.M = S, P, Cc, tag, col or ((), ()), M      # col = (coordinate dims, element index)
 
     def _rel(self, env, al, n):
-        M = env['M']
+        M = self.M          # = len(coefficients) - 1, from the harness: the invariant does not depend on the body's name for it
         at = lambda r: elem(al, r, *self.col[1])
         if n >= 0:
             return eq(self.S(M + 1), self.S(n + 1) + at(n + 1) * self.P(n + 1) - self.Cc(n + 1) * at(n + 2) * self.P(n))
@@ -93,7 +107,7 @@ class ClenshawInv(Invariant):
 
     def state(self, env, n):
         from pvc.symcore import ctx
-        M = env['M']
+        M = self.M          # = len(coefficients) - 1, from the harness: the invariant does not depend on the body's name for it
         al = Array(ctx.fresh_name('alphas_' + self.tag), (M + 1,) + tuple(self.col[0]))
         assume(self._rel(env, al, n))
         return {'alphas': al, 'a': env.get('a'), 'b': env.get('b'), 'c': env.get('c'), '_': env.get('_')}
@@ -118,6 +132,7 @@ def clenshaw_any(kind):
     xin, x, dims, ix = _coords(kind)
     pick = lambda arr: elem(arr, *ix) if ix else arr
     if MODE != 'symbolic':
+        _seed_exact_zeros(s)
         out = call(P + 'jacobi.jacobi_sum_clenshaw', s, a, b, xin)
         want = 0
         for k in range(L):
@@ -159,7 +174,7 @@ def clenshaw_any(kind):
     def abc(n, al, be):
         return app('callee_recurrence_a', n), app('callee_recurrence_b', n), app('callee_recurrence_c', n)
     with stub('prysm.polynomials.jacobi', 'recurrence_abc', abc):
-        with cut_loops(P + 'jacobi.jacobi_sum_clenshaw', {0: ClenshawInv(S, Pk, lambda k: app('callee_recurrence_c', k), 'it', (dims, ix))}) as f:
+        with cut_loops(P + 'jacobi.jacobi_sum_clenshaw', {0: ClenshawInv(S, Pk, lambda k: app('callee_recurrence_c', k), 'it', (dims, ix), L - 1)}) as f:
             out = f(s, a, b, xin)
     if dims:
         check('shape', shape_is(out, *dims))
@@ -170,18 +185,18 @@ class QbfsClenshawInv(Invariant):
     """loop `for i in range(M-2, -1, -1)` of clenshaw_qbfs, indexed by the next i: with S(r) = sum_{k<r} b_k P_k (ghost prefix sum) and
     Forbes' auxiliary polynomials P_0 = 2, P_1 = 6 - 8x, P_{k+1} = (2 - 4x) P_k - P_{k-1} (oe-18-19-19700 A.4), the rows i+1, i+2 of
     `alphas` satisfy   S(M+1) = S(i+1) + alphas[i+1] P_{i+1} + alphas[i+2] (P_{i+2} - (2 - 4x) P_{i+1})   for every i >= -1."""
-    def __init__(self, S, P, x, tag, col=None):
-        self.S, self.P, self.x, self.tag, self.col = S, P, x, tag, col or ((), ())
+    def __init__(self, S, P, x, tag, col=None, M=None):
+        self.S, self.P, self.x, self.tag, self.col, self.M = S, P, x, tag, col or ((), ()), M
 
     def _rel(self, env, al, i):
-        M = env['M']
+        M = self.M          # = len(coefficients) - 1, from the harness: the invariant does not depend on the body's name for it
         at = lambda r: elem(al, r, *self.col[1])
         return eq(self.S(M + 1), self.S(i + 1) + at(i + 1) * self.P(i + 1)
                   + at(i + 2) * (self.P(i + 2) - (2 - 4 * self.x) * self.P(i + 1)))
 
     def state(self, env, i):
         from pvc.symcore import ctx
-        M = env['M']
+        M = self.M          # = len(coefficients) - 1, from the harness: the invariant does not depend on the body's name for it
         al = Array(ctx.fresh_name('alphas_' + self.tag), (M + 1,) + tuple(self.col[0]))
         assume(self._rel(env, al, i))
         return {'alphas': al}
@@ -202,6 +217,7 @@ def clenshaw_qbfs_any(kind):
     pick = lambda arr: elem(arr, *ix) if ix else arr
     if MODE != 'symbolic':
         import numpy as np
+        _seed_exact_zeros(cs)
         out = pick(call(P + 'qpoly.clenshaw_qbfs', cs, xin))
         bs = get(P + 'qpoly.change_basis_Qbfs_to_Pn')(cs)
         Pn = [2.0, 6 - 8 * x]
@@ -237,7 +253,7 @@ def clenshaw_qbfs_any(kind):
             S(r - 1, depth - 1)
         return v
     with stub('prysm.polynomials.qpoly', 'change_basis_Qbfs_to_Pn', lambda c: bs):
-        with cut_loops(P + 'qpoly.clenshaw_qbfs', {0: QbfsClenshawInv(S, Pk, x, 'q', (dims, ix))}) as f:
+        with cut_loops(P + 'qpoly.clenshaw_qbfs', {0: QbfsClenshawInv(S, Pk, x, 'q', (dims, ix), L - 1)}) as f:
             out = f(cs, xin)
     if dims:
         check('shape', shape_is(out, *dims))
@@ -248,18 +264,18 @@ class BackSubstInv(Invariant):
     """loop `for i in range(M-2, -1, -1)` of change_basis_Qbfs_to_Pn, indexed by the next i: every row r > i already written solves its
     equation of the upper-triangular system  f_r b_r + g_r b_{r+1} + h_r b_{r+2} = c_r  (b beyond M read as 0).  Stated at one arbitrary
     row r (skolem): the body writes only bs[i], so rows above are framed."""
-    def __init__(self, rel, r, tag):
-        self.rel, self.r, self.tag = rel, r, tag
+    def __init__(self, rel, r, tag, M=None):
+        self.rel, self.r, self.tag, self.M = rel, r, tag, M
 
     def state(self, env, i):
         from pvc.symcore import ctx
-        M = env['M']
+        M = self.M          # = len(coefficients) - 1, from the harness: the invariant does not depend on the body's name for it
         bs = Array(ctx.fresh_name('bs_' + self.tag), (M + 1,))
         assume(Implies(self.r > i, self.rel(bs, self.r, M)))
         return {'bs': bs, 'g': env.get('g'), 'h': env.get('h'), 'f': env.get('f')}
 
     def holds(self, env, i):
-        yield 'rows-above-solved', Implies(self.r > i, self.rel(env['bs'], self.r, env['M']))
+        yield 'rows-above-solved', Implies(self.r > i, self.rel(env['bs'], self.r, self.M))
 
 
 @harness('C10', 'change_basis_Qbfs_to_Pn/back-substitution', variants=['array'], fuc=['prysm.polynomials.qpoly.change_basis_Qbfs_to_Pn'])
@@ -301,7 +317,7 @@ def change_basis_rows(kind):
         return eq(fq(rr) * elem(bs, rr) + t1 + t2, elem(cs, rr))
     with stub('prysm.polynomials.qpoly', 'f_qbfs', fq), stub('prysm.polynomials.qpoly', 'g_qbfs', lambda k: app('callee_g_qbfs', k)), \
             stub('prysm.polynomials.qpoly', 'h_qbfs', lambda k: app('callee_h_qbfs', k)):
-        with cut_loops(P + 'qpoly.change_basis_Qbfs_to_Pn', {0: BackSubstInv(rel, r, 'b')}) as f:
+        with cut_loops(P + 'qpoly.change_basis_Qbfs_to_Pn', {0: BackSubstInv(rel, r, 'b', L - 1)}) as f:
             bs = f(cs)
     check('length', shape_is(bs, L))
     check('row-solved', rel(bs, r, L - 1))
